@@ -15,6 +15,7 @@ A term containing `call:` or `?` has an uninterpreted part: a rule that cannot m
 from __future__ import annotations
 
 import ast
+import copy
 import itertools
 
 from .interp import AV, UNK, BaseRule, Out, const
@@ -213,6 +214,35 @@ class TermRule(BaseRule):
         s.env[it.var(f.value.id)] = tv(T("list", *elts, x), none=False, truth=True)
         return [Out("normal", s, const(None))]
 
+    def _desugar_any_all(self, it, st, node):
+        """any(E(x) for x in (a, b, ...)) == E(a) or E(b) or ...;  all(...) == ... and ...   (literal iterables only)"""
+        f = node.func
+        if not (isinstance(f, ast.Name) and f.id in ("any", "all") and len(node.args) == 1 and not node.keywords):
+            return None
+        g = node.args[0]
+        if not (isinstance(g, (ast.GeneratorExp, ast.ListComp)) and len(g.generators) == 1 and not g.generators[0].ifs
+                and isinstance(g.generators[0].target, ast.Name) and isinstance(g.generators[0].iter, (ast.Tuple, ast.List))):
+            return None
+        tgt = g.generators[0].target.id
+
+        class Sub(ast.NodeTransformer):
+            def __init__(self, repl):
+                self.repl = repl
+
+            def visit_Name(self, n):
+                if n.id == tgt and isinstance(n.ctx, ast.Load):
+                    return copy.deepcopy(self.repl)
+                return n
+
+        vals = [Sub(e).visit(copy.deepcopy(g.elt)) for e in g.generators[0].iter.elts]
+        if not vals:
+            return [Out("normal", st, const(f.id == "all"))]
+        expr = vals[0] if len(vals) == 1 else ast.BoolOp(op=ast.Or() if f.id == "any" else ast.And(), values=vals)
+        ast.copy_location(expr, node)
+        ast.fix_missing_locations(expr)
+        res, raises = it.truth_fork(st, expr)
+        return list(raises) + [Out("normal", s, const(b)) for s, b in res]
+
     def call(self, it, st, node, recv, pos, kw):
         r = self.call_hook(it, st, node, recv, pos, kw)
         if r is not None:
@@ -220,7 +250,20 @@ class TermRule(BaseRule):
         r = self._list_builder(it, st, node, recv, pos)
         if r is not None:
             return r
+        r = self._desugar_any_all(it, st, node)
+        if r is not None:
+            return r
         f = node.func
+        if isinstance(f, ast.Name) and f.id == "bool" and len(pos) == 1 and not kw and (it.m.resolve_local(it.module, "bool") or "builtins.").startswith("builtins."):
+            # bool(x): decided by (and deciding) the truthiness of x
+            a = st.view(pos[0])
+            if a.truth is not None:
+                return [Out("normal", st, const(a.truth))]
+            outs = []
+            for t in (True, False):
+                s = it.refine(st.copy(), node.args[0], a, lambda v, t=t: v.with_truth(t))
+                outs.append(Out("normal", s, const(t)))
+            return outs
         kws = [f"{k}={term_of(v)}" for k, v in sorted(kw.items())]
         if isinstance(f, ast.Attribute) and recv is not None and f.attr in PURE_STR_METHODS and recv.kind != "self":
             if f.attr == "join" and len(pos) == 1:
